@@ -44,6 +44,14 @@ def run(ctx):
         ctx.guard("backward-walk" + tag, backward_walk, ctx, crate, crs, tag)
         ctx.guard("variant-map" + tag, variant_map_rule, ctx, crate, crs, tag)
         ctx.guard("reachability" + tag, reachability, ctx, crate, crs, tag)
+        # the edges of the report are read off the clauses, so "each edge is a true fact about the provider's data" needs the
+        # clauses themselves to say what the provider said: the encoder rules of C01 (a Requires clause lists all candidates of
+        # its requirement, Constrains clauses are built from the non-matching list, at-most-one clauses join candidates of one
+        # package) and the candidate-list rules of the cache (matching / non-matching lists are not mixed up)
+        import c01, mech
+        ctx.guard("encoding" + tag, c01.encoding, ctx, crate, crs, tag)
+        ctx.guard("candidate-lists" + tag, mech.memo_check, ctx, "candidate-lists", crate, crs, tag)
+        ctx.guard("candidate-lists" + tag, mech.filter_siblings, ctx, crate, crs, tag, "candidate-lists")
 
 
 def antecedents(ctx, crate, crs, tag):
